@@ -1338,3 +1338,27 @@ async fn d33_second_checkpoint_into_the_same_directory_truncates_live_tables() {
 		assert!(tree.begin().unwrap().get(format!("key-{i:03}").as_bytes()).unwrap().is_some(), "D33: key {i} lost");
 	}
 }
+
+// D34: the WAL writer is opened (CoreInner::new) before the replay/repair step, and opening a writer on an existing segment
+// parses the first record's type byte with `?` (detect_compression_type).  Damage to that one byte makes Tree::new fail
+// even in the tolerant recovery mode, whose contract is to repair (cut the log at the first bad record) and open.
+#[tokio::test(flavor = "multi_thread")]
+async fn d34_damaged_first_type_byte_fails_open_in_tolerant_mode() {
+	let d = td();
+	let opts = mk_opts(d.path().to_path_buf(), |o| o.flush_on_close = false);
+	{
+		let t = Tree::new(Arc::clone(&opts)).unwrap();
+		put(&t, b"k1", b"v1").await;
+		put(&t, b"k2", b"v2").await;
+		t.close().await.unwrap();
+	}
+	let wal_dir = d.path().join("wal");
+	let seg = std::fs::read_dir(&wal_dir).unwrap().filter_map(|e| e.ok()).map(|e| e.path()).find(|p| p.extension().map(|x| x == "wal").unwrap_or(false)).expect("a WAL segment");
+	let mut bytes = std::fs::read(&seg).unwrap();
+	assert!(bytes.len() > 7);
+	bytes[6] = 0xff; // type byte of the first physical record
+	std::fs::write(&seg, &bytes).unwrap();
+	assert_eq!(opts.wal_recovery_mode, crate::WalRecoveryMode::TolerateCorruptedWithRepair, "precondition: default mode is the tolerant one");
+	let r = Tree::new(Arc::clone(&opts));
+	assert!(r.is_ok(), "D34: open fails in TolerateCorruptedWithRepair mode on a single damaged byte: {:?}", r.err());
+}
